@@ -46,8 +46,32 @@ def recipe(rnd, nsurf=None, conics=True):
         t = rnd.uniform(1.0, 10.0) if in_glass else rnd.uniform(2.0, 30.0)
         surf.append({"R": R, "k": k, "n": nval, "t": t})
     surf[-1]["n"] = 1.0 if rnd.random() < 0.8 else surf[-1]["n"]
+    finite = rnd.random() < 0.3
+    # how the aperture is specified: a length (EPD) or a dimensionless number (image-space F-number,
+    # object-space NA) of the same beam - the value is derived once from the unscaled EPD lens
+    ap = rnd.choice(["EPD", "EPD", "imageFNO", "objectNA"] if finite else ["EPD", "EPD", "imageFNO"])
     return {"epd": epd, "surf": surf, "stop": rnd.randint(1, n), "field": rnd.uniform(1.0, 6.0),
-            "finite": rnd.random() < 0.3, "obj_t": rnd.uniform(60, 400), "w": [0.4861, 0.5876, 0.6563]}
+            "finite": finite, "obj_t": rnd.uniform(60, 400), "w": [0.4861, 0.5876, 0.6563],
+            "aperture": ap, "ap_value": None}
+
+
+def aperture_value(rc):
+    """The dimensionless aperture value describing the same beam as rc['epd'] on the unscaled lens
+    (input generation only: the library's FNO / EPL pick an argument, they judge nothing)."""
+    if rc.get("aperture", "EPD") == "EPD":
+        return None
+    if rc.get("ap_value") is None:
+        o = build(dict(rc, aperture="EPD"))
+        if rc["aperture"] == "imageFNO":
+            v = abs(float(np.ravel(o.paraxial.FNO())[0]))
+        else:
+            z = float(np.ravel(o.paraxial.EPL())[0]) + rc["obj_t"]
+            v = math.sin(math.atan(rc["epd"] / (2.0 * abs(z))))
+        if not (math.isfinite(v) and v > 0):
+            rc["aperture"] = "EPD"
+            return None
+        rc["ap_value"] = v
+    return rc["ap_value"]
 
 
 def build(rc, scale=1.0, dummy=None):
@@ -72,7 +96,11 @@ def build(rc, scale=1.0, dummy=None):
             idx += 1
         prev_n = s["n"]
     o.add_surface(index=idx)
-    o.set_aperture("EPD", rc["epd"] * scale)
+    apv = aperture_value(rc)
+    if apv is None:
+        o.set_aperture("EPD", rc["epd"] * scale)
+    else:
+        o.set_aperture(rc["aperture"], apv)         # dimensionless: the same for every scale
     o.set_field_type("angle")
     o.add_field(y=0.0)
     o.add_field(y=rc["field"])
@@ -167,7 +195,7 @@ def _meta_case(args):
             ev["kind"] = "same"
             ev["bits"] = 36
             ev["desc"] = {"surface": k, "angle": ang, "axis": axis, "R": R, "stop": rc["stop"],
-                          "stop_at_or_behind_tilted_surface": rc["stop"] >= k}
+                          "stop_at_or_behind_tilted_surface": rc["stop"] >= k, "aperture": rc["aperture"]}
         elif kind == "dummy":
             j = rnd.randrange(len(rc["surf"]))
             frac = rnd.uniform(0.1, 0.9)
@@ -275,7 +303,8 @@ def main(ctx):
     for e in evs:
         for clause in verdicts[e["id"]]:
             ctx.report(clause, {"transformation": e["src"],
-                                "stop_at_or_behind_tilted_surface": bool(e["desc"].get("stop_at_or_behind_tilted_surface", False))},
+                                "stop_at_or_behind_tilted_surface": bool(e["desc"].get("stop_at_or_behind_tilted_surface", False)),
+                                "aperture": e["desc"].get("aperture", "EPD") if e["src"] == "tilt_centre" else None},
                        "%s (seed %d, %s): clause %s fails %s" % (e["src"], e["seed"], e["desc"], clause, e["exc"]),
                        {"seed": e["seed"], "kind": e["src"], "desc": e["desc"]})
     ctx.extra["metamorphic_pairs_by_kind"] = bykind
